@@ -134,6 +134,25 @@ def tlc(work, name, module, cfg, workers=None, timeout=600, extra=(), files=None
     return res
 
 
+def apalache(work, name, module, init, inv, length, timeout=300):
+    """Apalache bounded check of spec/<module>.tla (used for inductive invariants: init=IndInit, length=1).
+    Like lib.tlc, a failure is an infrastructure error about the SPEC, never a verdict about the code."""
+    d = work.sub(name)
+    shutil.copy(os.path.join(SPEC, module + ".tla"), d)
+    env = dict(os.environ)
+    jtmp = os.path.join(d, "jtmp")
+    os.makedirs(jtmp, exist_ok=True)
+    env["JAVA_TOOL_OPTIONS"] = (env.get("JAVA_TOOL_OPTIONS", "") + " -Djava.io.tmpdir=" + jtmp).strip()
+    cmd = ["apalache-mc", "check", "--init=" + init, "--inv=" + inv, "--length=%d" % length,
+           "--out-dir=" + os.path.join(d, "out"), "--run-dir=" + os.path.join(d, "rundir"), module + ".tla"]
+    rc, out, wall = run(cmd, cwd=d, timeout=timeout, env=env)
+    with open(os.path.join(d, "apalache.out"), "w") as fh:
+        fh.write(out)
+    if rc != 0 or "The outcome is: NoError" not in out:
+        raise Infra("Apalache run '%s' failed (rc=%d):\n%s" % (name, rc, out[-1500:]))
+    return dict(cmd=" ".join(cmd[:5]) + " %s.tla" % module, outcome="NoError", wall=round(wall, 1))
+
+
 def tail_err(out):
     lines = out.splitlines()
     keep = [l for l in lines if not l.startswith(("Linting", "Semantic", "Parsing"))]
